@@ -3,6 +3,7 @@ import QclibModel.Proofs.UnitaryDemux
 import QclibModel.Proofs.UnitaryCsd
 import QclibModel.Proofs.UnitaryIso
 import QclibModel.Proofs.RotReal
+import QclibModel.Proofs.UnitaryFullEx
 /-
   C02 — unitary synthesis (`qclib/unitary.py`).  Property theorems only; proofs live in
   Proofs/Unitary*.lean.  The property is PARTIAL by nature: `scipy.linalg.cossin`, `np.linalg.eig`,
@@ -245,5 +246,185 @@ theorem C02_qr_orientation {n row col : Nat} (hrow : row < 2 ^ n) (hlt : col < r
   exact ⟨hb.1, hb.2, (qr_mcmt_pattern hrow (by omega) (by omega) hw ht b).1⟩
 
 example : (6 : Nat) < 2 ^ 3 ∧ (1 : Nat) < 6 := by decide
+
+/-! ### whole-recursion assembly (QSD), with the kernel specifications as hypotheses
+
+Representation: `QI n` is the index set of `n` qubits (an `n`-fold sum, outer summand = top qubit,
+so `Matrix.fromBlocks` is the block structure over the top qubit); `enc n b : QI n` reads the wires
+`0 … n-1` of a label, `over n j b` overwrites them with `j`, `natOf n j` is the little-endian number;
+
+    applyMat n M ψ b = Σ_j M (enc n b) j · ψ (over n j b)
+
+is "`M` acting on the wires `0 … n-1`, little-endian, identity on every other wire", for EVERY
+state `ψ`.  (Definitions in Proofs/UnitaryFullMat.lean.) -/
+
+/-- **C02 (the matrix representation composes).**  Product of matrices ↔ composition of
+transformers (right factor first); block-diagonal over the top qubit ↔ multiplexer on the top wire;
+`M ⊕ M` on `n+1` wires ↔ `M` on the `n` low wires (a sub-circuit used one level up); the identity
+matrix ↔ the identity. -/
+theorem C02_matrix_semantics {R : Type} [CommRing R] (n : Nat) (A B : Matrix (QI n) (QI n) R)
+    (ψ : State R) :
+    applyMat n (A * B) ψ = applyMat n A (applyMat n B ψ) ∧
+    (∀ b : Bits, applyMat (n + 1) (bd A B) ψ b = if b n then applyMat n B ψ b else applyMat n A ψ b) ∧
+    applyMat (n + 1) (bd A A) ψ = applyMat n A ψ ∧
+    applyMat n (1 : Matrix (QI n) (QI n) R) ψ = ψ :=
+  ⟨applyMat_mul n A B ψ, fun b => applyMat_blockDiag n A B ψ b, applyMat_same n A ψ,
+   applyMat_one n ψ⟩
+
+/-- non-vacuity / sanity of the representation: on one qubit the matrix `[[0,1],[1,0]]` (over `ℤ`)
+is the `X` gate of the gate semantics on wire `0`, on every state. -/
+example (ψ : State ℤ) :
+    applyMat 1 (fromBlocks (diagonal fun _ => 0) (diagonal fun _ => 1) (diagonal fun _ => 1)
+      (diagonal fun _ => 0) : Matrix (QI 1) (QI 1) ℤ) ψ = applyMcu [] Mat2.X 0 ψ := by
+  rw [applyMat_diagBlocks, applyMcu_nil_at]
+  rfl
+
+section full
+variable {Θ R : Type} [AddCommGroup Θ] [CommRing R] [RotSem Θ R] [RotLaws Θ R]
+
+/-- **C02 (the placement gap closed: the middle circuit on the wires the model uses).**  For every
+`n = m+2 ≥ 2` and every angle list, the gate list the model really emits for the middle circuit,
+`place (ucr(RY, 2θ, CZ, last_control=False)) ([n-1] + range(n-1))`, denotes on every state
+(i) the CS multiplexer on the top wire `n-1`, its block `[[c_j,-s_j],[s_j,c_j]]` selected by the
+little-endian number `j` on the wires `0 … n-2`, followed by the omitted entangler, which sits as
+`CZ(n-2, n-1)` between the two top wires; (ii) as a matrix on the wires `0 … n-1`: `CZ · CS(θ)` with
+`CZ = CZm` and `CS` the `[[C,-S],[S,C]]` of `cossin` — exactly the middle factor of `C02_csd_step`. -/
+theorem C02_middle_placed (half : Θ → Θ) (negl : Θ → Bool)
+    (hhalf : ∀ a, half a + half a = a) (hadd : ∀ a b, half (a + b) = half a + half b)
+    (hnegl : ∀ a, negl a = true → a = 0) (m : Nat) (θ : Nat → Θ) (ψ : State R) :
+    sem (place (ucr (stdOps half negl) Axis.Y Ent.CZ (m + 1) (fun j => θ j + θ j) false)
+        (topFirst (m + 2))) ψ
+      = denote (G.cz m (m + 1) : G Θ)
+          (applyFam (fun b => (csBlock (θ (natOf (m + 1) (enc (m + 1) b))) : Mat2 R)) (m + 1) ψ) ∧
+    sem (place (ucr (stdOps half negl) Axis.Y Ent.CZ (m + 1) (fun j => θ j + θ j) false)
+        (topFirst (m + 2))) ψ
+      = applyMat (m + 2) (CZtop m * CSmat (m + 1) θ : Matrix (QI (m + 2)) (QI (m + 2)) R) ψ ∧
+    (CZtop m : Matrix (QI (m + 2)) (QI (m + 2)) R) = CZm R (QI m) :=
+  ⟨middle_sem half negl hhalf hadd hnegl m θ ψ, middle_mat half negl hhalf hadd hnegl m θ ψ, rfl⟩
+
+/-- **C02 (one `build_unitary` node on the real gate list).**  If `X = diag(u0,u1)·CS(θ)·diag(v0,v1)`
+(the `cossin` specification), the left part `Lt` denotes `diag(v0, v1)` and the right part `Rt`
+denotes `diag(u0, u1·Z)` (`u1` with the right half of its columns negated), then left part, the
+model's middle gate list on `[n-1] + range(n-1)`, right part denote `X` on every state:
+`C02_csd_nolast` and `C02_csd_step` joined on the wires the model uses. -/
+theorem C02_csd_node (half : Θ → Θ) (negl : Θ → Bool)
+    (hhalf : ∀ a, half a + half a = a) (hadd : ∀ a b, half (a + b) = half a + half b)
+    (hnegl : ∀ a, negl a = true → a = 0) (m : Nat) (θ : Nat → Θ)
+    (u0 u1 v0 v1 : Matrix (QI (m + 1)) (QI (m + 1)) R) (X : Matrix (QI (m + 2)) (QI (m + 2)) R)
+    (hX : X = bd u0 u1 * CSmat (m + 1) θ * bd v0 v1)
+    (Lt Rt : State R → State R)
+    (hL : ∀ ψ, Lt ψ = applyMat (m + 2) (bd v0 v1) ψ)
+    (hR : ∀ ψ, Rt ψ = applyMat (m + 2) (bd u0 (u1 * Zlow m)) ψ) (ψ : State R) :
+    Rt (sem (place (ucr (stdOps half negl) Axis.Y Ent.CZ (m + 1) (fun j => θ j + θ j) false)
+        (topFirst (m + 2))) (Lt ψ)) = applyMat (m + 2) X ψ := by
+  rw [hR, middle_mat half negl hhalf hadd hnegl, hL, ← applyMat_mul, ← applyMat_mul, hX]
+  exact congrArg (fun M => applyMat (m + 2) M ψ)
+    (csd_step_blocks (κ := QI m) u0 u1 v0 v1 (CSmat (m + 1) θ))
+
+variable [StarRing R]
+
+/-- **C02 (QSD, the whole recursion).**  For every `n`, every isometry mode `iso` and every matrix
+`X` on `n` qubits: IF `tape`/`leaves` are the record of a run of `build_unitary(X, "qsd", iso)` in
+which at every node the kernel outputs meet their specifications (`QsdSynth`: every `cossin` call
+returned `X' = diag(u0,u1)·CS(θ)·diag(v0,v1)`; every `_compute_gates` call on a pair `(U1,U2)`
+returned `V`, `d = e^{iα}` with `V V† = 1`, `U1 U2† = V diag(d²) V†`, and `U2† U2 = 1`; every leaf
+`UnitaryGate` denotes its matrix on the wires `0 … n'-1`), THEN the gate list the model emits
+(`buildUnitary … qsd`: leaves, `ry`/`cz` of every CZ multiplexer placed on `[n'-1] + range(n'-1)`,
+`UCRZ(-2α)` objects with their multiplexer specification) reads exactly the tape, uses exactly the
+leaf denotations, and denotes on EVERY state a matrix `C` acting on the wires `0 … n-1`
+(little-endian, identity on all other wires) whose columns with the top `iso` qubits reading `0`
+are those of `X`; for `iso = 0`, `C = X`.  `hex` is the conjugation law `conj e^{ia/2} = e^{-ia/2}`
+of the rotation vocabulary (it holds in the `ℝ → ℂ` instance: `hex_real`). -/
+theorem C02_qsd_full (half : Θ → Θ) (negl : Θ → Bool)
+    (hhalf : ∀ a, half a + half a = a) (hadd : ∀ a b, half (a + b) = half a + half b)
+    (hnegl : ∀ a, negl a = true → a = 0) (hex : ∀ a : Θ, star (ex a : R) = ex (-a))
+    {n iso : Nat} {X : Matrix (QI n) (QI n) R} {tape : Tape Θ} {leaves : List (Leaf R)}
+    (h : QsdSynth (.one n iso X) tape leaves) :
+    (buildUnitary (stdUOps half negl) Dec.qsd n iso tape).2 = [] ∧
+    ∃ C : Matrix (QI n) (QI n) R,
+      (∀ ψ : State R, runUG (buildUnitary (stdUOps half negl) Dec.qsd n iso tape).1 leaves ψ
+        = (applyMat n C ψ, [])) ∧
+      (∀ i j, TopZero n iso j → C i j = X i j) ∧ (iso = 0 → C = X) := by
+  obtain ⟨h1, C, h2, h3⟩ := qsd_full half negl hhalf hadd hnegl hex h
+  exact ⟨h1, C, h2, h3, fun h0 => by subst h0; exact h3.eq⟩
+
+/-- **C02 (QSD in isometry mode, state level)** — corollary of `C02_qsd_full` and the
+leading-column argument of `C02_iso_columns` (`iso_step`): on every state supported on labels whose
+wires `n-iso … n-1` read `0` (the isometry's inputs; all other wires arbitrary) the model's whole
+gate list acts like `X`. -/
+theorem C02_qsd_iso_full (half : Θ → Θ) (negl : Θ → Bool)
+    (hhalf : ∀ a, half a + half a = a) (hadd : ∀ a b, half (a + b) = half a + half b)
+    (hnegl : ∀ a, negl a = true → a = 0) (hex : ∀ a : Θ, star (ex a : R) = ex (-a))
+    {n iso : Nat} {X : Matrix (QI n) (QI n) R} {tape : Tape Θ} {leaves : List (Leaf R)}
+    (h : QsdSynth (.one n iso X) tape leaves) (ψ : State R)
+    (hψ : ∀ b : Bits, (∃ q, n - iso ≤ q ∧ q < n ∧ b q = true) → ψ b = 0) :
+    runUG (buildUnitary (stdUOps half negl) Dec.qsd n iso tape).1 leaves ψ = (applyMat n X ψ, []) := by
+  obtain ⟨_, C, h2, h3⟩ := qsd_full half negl hhalf hadd hnegl hex h
+  rw [h2, applyMat_leadEq h3 ψ hψ]
+
+end full
+
+/-- non-vacuity of `C02_qsd_full` / `C02_qsd_iso_full` in the `ℝ → ℂ` instance: the rotation
+hypotheses hold (`half a = a/2`, exact-zero test, `hex_real`), and there is a complete valid record
+for `n = 3` (one `cossin` node, two demultiplexed pairs, four two-qubit leaves) with the non-identity
+target `X = CZ(1, 2)` (`θ = 0`, `u1 = Z⊗1`, so that the A.1-flipped block is `1`) — so the whole
+gate list `buildUnitary qsd 3 0` (4 leaves, 2 UCRZ, the CZ multiplexer) denotes `CZ(1,2)`; likewise
+in mode `iso = 1` (3 leaves). -/
+example : ∃ (tape : Tape ℝ) (leaves : List (Leaf ℂ)),
+    tape.length = 3 ∧ leaves.length = 4 ∧
+    ∀ ψ : State ℂ, runUG (buildUnitary (stdUOps (fun a : ℝ => a / 2) (fun a => decide (a = 0)))
+        Dec.qsd 3 0 tape).1 leaves ψ = (applyMat 3 (CZtop 1) ψ, []) := by
+  obtain ⟨tape, leaves, hs, ht, hl⟩ := synth_cz3
+  obtain ⟨_, C, hC, _, hCX⟩ := C02_qsd_full (fun a : ℝ => a / 2) (fun a => decide (a = 0))
+    (fun a => by ring) (fun a b => by ring) (fun a h => by simpa using h) hex_real hs
+  exact ⟨tape, leaves, ht, hl, fun ψ => by rw [hC, hCX rfl]⟩
+
+example : ∃ (tape : Tape ℝ) (leaves : List (Leaf ℂ)),
+    QsdSynth (.one 3 1 (CZtop 1 : Matrix (QI 3) (QI 3) ℂ)) tape leaves ∧ leaves.length = 3 := by
+  obtain ⟨tape, leaves, hs, _, hl⟩ := synth_cz3_iso
+  exact ⟨tape, leaves, hs, hl⟩
+
+/-! ### whole-recursion assembly (CSD) -/
+
+/-- **C02 (CSD, the whole recursion).**  For every `n`, `iso`, `X`: IF `tape`/`leaves` are the record
+of a run of `build_unitary(X, "csd", iso)` in which every kernel output meets its specification
+(`CsdSynth`: the top `cossin` of every `build_unitary` level, and in `_multiplexed_csd` one `cossin`
+per block of every list, each returning `B_h = diag(u0_h,u1_h)·CS(θ_h)·diag(v0_h,v1_h)` with `theta`
+of the right length; every leaf `UnitaryGate` denotes its matrix; every `UCGate(gate_list)` on
+`[0] + (1 … n-1)` denotes the multiplexed 2×2 blocks, block number = the number on wires `1 … n-1`;
+`UCRYGate` = ideal multiplexer), THEN the gate list the model emits (`buildUnitary … csd`: the
+interleaved left / right block lists recursively, `UCRYGate(2θ)` on `[s-1] + (0 … s-2, s … n-1)` —
+target in the MIDDLE, controls below and above it, proved to read block `h` from the wires above
+and the diagonal index from the wires below —, at the top level the CZ multiplexer without its last
+CZ and the sign-flipped `u1`) reads exactly the tape, uses exactly the leaf denotations and denotes
+on every state a matrix `C` on the wires `0 … n-1` whose columns with the top `iso` qubits `0` are
+those of `X` (`C = X` for `iso = 0`); on states whose wires `n-iso … n-1` read `0` it acts like `X`. -/
+theorem C02_csd_full {Θ R : Type} [AddCommGroup Θ] [CommRing R] [RotSem Θ R] [RotLaws Θ R]
+    (half : Θ → Θ) (negl : Θ → Bool)
+    (hhalf : ∀ a, half a + half a = a) (hadd : ∀ a b, half (a + b) = half a + half b)
+    (hnegl : ∀ a, negl a = true → a = 0)
+    {n iso : Nat} {X : Matrix (QI n) (QI n) R} {tape : Tape Θ} {leaves : List (Leaf R)}
+    (h : CsdSynth (.one n iso X) tape leaves) :
+    (buildUnitary (stdUOps half negl) Dec.csd n iso tape).2 = [] ∧
+    ∃ C : Matrix (QI n) (QI n) R,
+      (∀ ψ : State R, runUG (buildUnitary (stdUOps half negl) Dec.csd n iso tape).1 leaves ψ
+        = (applyMat n C ψ, [])) ∧
+      (∀ i j, TopZero n iso j → C i j = X i j) ∧ (iso = 0 → C = X) ∧
+      (∀ ψ : State R, (∀ b : Bits, (∃ q, n - iso ≤ q ∧ q < n ∧ b q = true) → ψ b = 0) →
+        applyMat n C ψ = applyMat n X ψ) := by
+  obtain ⟨h1, C, h2, h3⟩ := csd_full half negl hhalf hadd hnegl h
+  exact ⟨h1, C, h2, h3, fun h0 => by subst h0; exact h3.eq, fun ψ hψ => applyMat_leadEq h3 ψ hψ⟩
+
+/-- non-vacuity of `C02_csd_full` in the `ℝ → ℂ` instance: a complete valid record for `n = 3`,
+`X = CZ(1, 2)` (one top `cossin`, two lists of two blocks with one `cossin` per block — tape of 5
+entries —, four `UCGate` leaves); the whole gate list `buildUnitary csd 3 0` denotes `CZ(1,2)`. -/
+example : ∃ (tape : Tape ℝ) (leaves : List (Leaf ℂ)),
+    tape.length = 5 ∧ leaves.length = 4 ∧
+    ∀ ψ : State ℂ, runUG (buildUnitary (stdUOps (fun a : ℝ => a / 2) (fun a => decide (a = 0)))
+        Dec.csd 3 0 tape).1 leaves ψ = (applyMat 3 (CZtop 1) ψ, []) := by
+  obtain ⟨tape, leaves, hs, ht, hl⟩ := csynth_cz3
+  obtain ⟨_, C, hC, _, hCX, _⟩ := C02_csd_full (fun a : ℝ => a / 2) (fun a => decide (a = 0))
+    (fun a => by ring) (fun a b => by ring) (fun a h => by simpa using h) hs
+  exact ⟨tape, leaves, ht, hl, fun ψ => by rw [hC, hCX rfl]⟩
 
 end Qclib
